@@ -804,6 +804,120 @@ fn main() {
     if old != lean {
         fs::write(lean_out, &lean).unwrap();
     }
+
+    // ---- facts about the registry, the children map and the broker (Generated/SysFacts.lean): the assumptions
+    //      under which Model/Registry.lean, Model/Sys.lean and Model/Broker.lean describe the code
+    let body = |ty: &str, name: &str| f(ty, name).map(|k| k.0.clone()).unwrap_or_default();
+    let loc = |ty: &str, name: &str| f(ty, name).map(|k| at(k)).unwrap_or_default();
+    let before = |b: &str, x: &str, y: &str| match (b.find(x), b.find(y)) {
+        (Some(i), Some(j)) => i < j,
+        _ => false,
+    };
+    let mut sys: Vec<(&str, bool, String)> = vec![];
+    {
+        let mut ok = true;
+        let mut n = 0;
+        for tr in ["trait SpawnableService", "trait Service"] {
+            let b = body(tr, "from_registry_and_spawn");
+            if b.is_empty() {
+                continue;
+            }
+            n += 1;
+            ok &= before(&b, "let mut registry = REGISTRY . write ( ) . await ;", "registry . get_mut ( & key )")
+                && before(&b, "registry . get_mut ( & key )", "registry . insert ( key , Box :: new ( addr . clone ( ) ) )")
+                && b.contains(". filter ( Addr :: running )")
+                && !b.contains("REGISTRY . read")
+                && !b.contains("try_read")
+                && !b.contains("or_insert")
+                && b.matches("REGISTRY . write").count() == 1;
+        }
+        sys.push(("lookupOrSpawnUnderOneWriteLock", ok && n > 0, loc("trait SpawnableService", "from_registry_and_spawn")));
+    }
+    {
+        let r = body("Addr", "register");
+        let ok = before(&r, "let mut registry = REGISTRY . write ( ) . await ;", "registry . get ( & key )")
+            && r.contains(". is_some_and ( Addr :: stopped )")
+            && r.contains("return Err ( crate :: error :: ActorError :: ServiceStillRunning )")
+            && r.matches("registry . insert ( key , Box :: new ( self . clone ( ) ) )").count() == 2
+            && r.contains("Ok ( ( self , replaced ) )");
+        sys.push(("registerReplacesOnlyStopped", ok, loc("Addr", "register")));
+        let rp = body("Addr", "replace");
+        let ur = body("Addr", "unregister");
+        let ok2 = before(&rp, "REGISTRY . write ( ) . await", "registry . insert ( key , Box :: new ( self . clone ( ) ) )")
+            && before(&ur, "REGISTRY . write ( ) . await", "registry . remove ( & key )");
+        sys.push(("replaceUnregisterReturnPrevious", ok2, loc("Addr", "replace")));
+        let tf = body("trait Service", "try_from_registry");
+        let ok3 = tf.contains("REGISTRY . try_read ( ) ?") && tf.contains(". filter ( | addr | addr . running ( ) )") && tf.contains(". cloned ( )");
+        sys.push(("tryFromRegistryOnlyRunning", ok3, loc("trait Service", "try_from_registry")));
+        let ar = body("trait Service", "already_running");
+        let ok4 = ar.contains("REGISTRY . read ( ) . await") && ar.contains(". map ( Addr :: running )") && !ar.contains("Addr :: stopped");
+        sys.push(("alreadyRunningReportsRunning", ok4, loc("trait Service", "already_running")));
+    }
+    {
+        let a = body("Context", "add_child");
+        let r = body("Context", "register_child");
+        let push = ". or_default ( ) . push ( Box :: new ( child . into ( ) ) )";
+        let ok = a.contains("child : impl Into < Sender < ( ) > >") && a.contains(push)
+            && r.contains("child : impl Into < Sender < M > >") && r.contains(push)
+            && fns.structs.get("Context").map(|s| s.0.contains("children : HashMap < TypeId , Vec < AnyBox > >")).unwrap_or(false);
+        sys.push(("childrenAreStrongSendersInContext", ok, loc("Context", "register_child")));
+        // nothing but add_child / register_child / send_to_children touches the map (it goes away with the context)
+        let touching: Vec<&(String, String)> = fns
+            .map
+            .iter()
+            .filter(|(k, v)| k.0 == "Context" && v.0.contains("children"))
+            .map(|(k, _)| k)
+            .collect();
+        let ok2 = touching.len() == 3 && touching.iter().all(|k| ["add_child", "register_child", "send_to_children"].contains(&k.1.as_str()));
+        sys.push(("childrenDroppedOnlyWithContext", ok2, loc("Context", "add_child")));
+        let b = body("Context", "send_to_children");
+        let ok3 = b.contains("if let Some ( children ) = self . children . get ( & key )")
+            && b.contains("for child in children . iter ( ) . filter_map ( | child | child . downcast_ref :: < Sender < M > > ( ) ) { if let Err ( error ) = child . force_send ( message . clone ( ) ) { log :: error !")
+            && !b.contains("try_for_each")
+            && !b.contains("break")
+            && !b.contains("return");
+        sys.push(("broadcastToEveryRegisteredChild", ok3, loc("Context", "send_to_children")));
+    }
+    {
+        let st = fns.structs.get("Broker").map(|s| s.0.clone()).unwrap_or_default();
+        let sub = body("Handler<Subscribe<T>> for Broker", "handle");
+        let uns = body("Handler<Unsubscribe<T>> for Broker", "handle");
+        let ok = st.contains("subscribers : HashMap < ContextID , WeakSender < T > >")
+            && sub.contains("self . subscribers . insert ( sender . id , sender ) ;")
+            && uns.contains("self . subscribers . remove ( & sender . id ) ;");
+        sys.push(("brokerTableWeakKeyedBySubscriber", ok, loc("Handler<Subscribe<T>> for Broker", "handle")));
+        let p = body("Handler<Publish<T>> for Broker", "handle");
+        let ok2 = before(&p, "self . subscribers . values ( ) . filter_map ( WeakSender :: upgrade ) . collect", "for subscriber in & live_subscribers")
+            && p.contains("for subscriber in & live_subscribers { if let Err ( _error ) = subscriber . send ( msg . 0 . clone ( ) ) . await { } }")
+            && !p.contains("join_all")
+            && !p.contains("spawn")
+            && !p.contains("break")
+            && !p.contains("return");
+        sys.push(("brokerFanoutSequentialIgnoringErrors", ok2, loc("Handler<Publish<T>> for Broker", "handle")));
+        let ok3 = body("Broker", "publish").contains("{ Self :: from_registry ( ) . await . publish ( topic ) . await }")
+            && body("Broker", "subscribe").contains("{ Self :: from_registry ( ) . await . subscribe ( sender ) . await }")
+            && body("Addr", "publish").contains("self . send ( Publish ( msg ) ) . await")
+            && body("Addr", "subscribe").contains("self . send ( Subscribe ( sender ) ) . await")
+            && body("Addr", "unsubscribe").contains("self . send ( Unsubscribe ( sender ) ) . await")
+            && body("Context", "publish").contains("crate :: Broker :: publish ( message ) . await")
+            && body("Context", "subscribe").contains("crate :: Broker :: subscribe ( self . weak_sender ( ) ) . await");
+        sys.push(("brokerOpsAreSendsThroughTheRegistry", ok3, loc("Broker", "publish")));
+    }
+    for (n, v, w) in &sys {
+        o.put(&format!("sys.{}", n), if *v { "true" } else { "false" }, w.clone());
+    }
+    {
+        let mut l = String::from("import Hannibal.Model.SysFacts\n/- GENERATED by /verif/extract from /repo's working tree on every check run. Do not edit. -/\nnamespace Hannibal\n\ndef SysFacts.current : SysFacts where\n");
+        for (n, v, _) in &sys {
+            l.push_str(&format!("  {} := {}\n", n, v));
+        }
+        l.push_str("\nend Hannibal\n");
+        let path = Path::new(lean_out).with_file_name("SysFacts.lean");
+        let old = fs::read_to_string(&path).unwrap_or_default();
+        if old != l {
+            fs::write(&path, &l).unwrap();
+        }
+    }
     let mut json = String::from("{\n");
     for (i, (n, v, w)) in o.facts.iter().enumerate() {
         json.push_str(&format!("  \"{}\": {{\"value\": \"{}\", \"at\": \"{}\"}}{}\n", n, v, w, if i + 1 < o.facts.len() { "," } else { "" }));
